@@ -54,6 +54,46 @@ CHECKS = {
         note='Trusted: snapshot covers exactly the observables the statement lists; private clocks are not compared. '
              'One fault per path (a refused fault is proved to change nothing, so sequences reduce to this case).',
         design='5/C15'),
+    'C03': dict(
+        technique='complete tree enumeration of fill/mark histories on real Position and Portfolio objects',
+        text='Every history of fills (6 signed quantities x prices x commissions) and price marks up to depth 4-5 is '
+             'executed on the real Position object and through Portfolio.transact_asset (positions discarded at zero and '
+             're-opened); on every prefix the P&L identities (total = realised + unrealised = market value - cash flows; '
+             'unrealised from the open-side average cost; a mark changes nothing realised) are compared with an exact '
+             'cash-flow ledger. All realisable running net-sign paths (long/short/flat/flipped) are shown covered.',
+        note='Decides the identities on a generic decimal alphabet and every control path up to k fills, not for all reals; '
+             'no random long sequences (sampling is another family).',
+        design='5/C03'),
+    'C10': dict(
+        technique='exhaustive input-grid enumeration of the real long-only sizer vs exact budget inequalities',
+        text='Full product equity x buffer x fee rate x weight vectors (1-3 assets, unnormalised/sparse/all-zero) x price '
+             'vectors: each point is a real DollarWeightedCashBufferedOrderSizer call on a real funded broker with a real '
+             'fee model; q is a non-negative int, q*p+fee <= allocation < (q+1)*p+fee, total <= (1-b)E; refusal grid for '
+             'negative weights, buffers outside [0,1] and NaN prices.',
+        note='Trusted: Fraction arithmetic of the reference; results within 1e-9 of a floor boundary accept both neighbours.',
+        design='5/C10'),
+    'C11': dict(
+        technique='exhaustive input-grid enumeration of the real long/short sizer vs exact truncation rule',
+        text='Full product equity x leverage x fee rate x signed weight vectors x price vectors on the real '
+             'LongShortLeveragedOrderSizer: int quantities with the sign of the weight, truncation toward zero, maximality '
+             'to within one currency unit, gross exposure <= L*E*(1+f); refusal grid for non-positive leverage and NaN prices.',
+        note='Trusted: Fraction arithmetic of the reference; boundary cases counted in boundary_ambiguous.',
+        design='5/C11'),
+    'C12': dict(
+        technique='exhaustive calendar enumeration of the real simulation engine vs independent date arithmetic',
+        text='Every start date of the window (quick: 447 consecutive days incl. year end and leap day; thorough: the full '
+             '28-year weekday/leap cycle and February 2100) x range lengths x start/end times x all four pre/post flag '
+             'combinations: the emitted event stream is compared event by event with a datetime.date reference, strict '
+             'monotonicity is checked, and end < start must raise ValueError.',
+        note='Trusted: datetime.date weekday arithmetic. End time of day never before the start time of day (quantifier).',
+        design='5/C12'),
+    'C13': dict(
+        technique='exhaustive calendar enumeration of the real rebalance schedules vs independent date arithmetic + clock membership',
+        text='Same calendar enumeration as C12 for WeeklyRebalance x 5 weekdays, DailyRebalance, EndOfMonthRebalance (each '
+             'x pre-market flag) and BuyAndHoldRebalance: exact date sets, stamps, strict order, and membership of every '
+             'instant in the real clock stream for the same range (the test the session uses); invalid weekdays refused.',
+        note='Range membership at date granularity; start time of day <= 14:30.',
+        design='5/C13'),
 }
 
 NOT_YET = 'check not built yet (work in progress, see DESIGN.md section 5)'
